@@ -220,6 +220,9 @@ type Explorer struct {
 
 func NewExplorer(m *Model) *Explorer {
 	x := &Explorer{M: m, P: m.P, loops: map[*ssa.Function]*loopInfo{}, pathCap: 20000, maxDepth: 7}
+	if thoroughTier {
+		x.pathCap, x.maxDepth = 400000, 12
+	}
 	x.touches = touchesState(m)
 	x.statePkgs = map[string]bool{}
 	for fn := range x.touches {
@@ -1148,7 +1151,65 @@ func (x *Explorer) convert(st *State, v Val, from, to types.Type) Val {
 
 func relFlip(op token.Token) token.Token { return flipCmp(op) }
 
+// strLenOperand: v is len(s) for a string s (the builtin applied to a string-typed value).
+func strLenOperand(v ssa.Value) ssa.Value {
+	call, ok := v.(*ssa.Call)
+	if !ok || len(call.Call.Args) != 1 {
+		return nil
+	}
+	if b, ok := call.Call.Value.(*ssa.Builtin); !ok || b.Name() != "len" {
+		return nil
+	}
+	if bt, ok := call.Call.Args[0].Type().Underlying().(*types.Basic); ok && bt.Info()&types.IsString != 0 {
+		return call.Call.Args[0]
+	}
+	return nil
+}
+
+// emptinessTest recognises every spelling of "string s is (not) empty" that compares len(s) with a
+// constant — len(s) == 0, != 0, > 0, < 1, >= 1, <= 0, with either operand order — and returns the
+// one canonical fact StrEq("", s), the same fact `s == ""` yields.
+func (x *Explorer) emptinessTest(fr *Frame, st *State, ins *ssa.BinOp) Val {
+	s, k, op := strLenOperand(ins.X), ins.Y, ins.Op
+	if s == nil {
+		s, k, op = strLenOperand(ins.Y), ins.X, relFlip(ins.Op)
+		if ins.Op == token.EQL || ins.Op == token.NEQ {
+			op = ins.Op
+		}
+	}
+	if s == nil {
+		return nil
+	}
+	n, isC := constInt(k)
+	if !isC {
+		return nil
+	}
+	var empty bool // does the test being true mean "s is empty"?
+	switch {
+	case op == token.EQL && n == 0, op == token.LSS && n == 1, op == token.LEQ && n == 0:
+		empty = true
+	case op == token.NEQ && n == 0, op == token.GTR && n == 0, op == token.GEQ && n == 1:
+		empty = false
+	default:
+		return nil
+	}
+	sv := x.eval(fr, st, s)
+	if kc, ok := sv.(*KConst); ok && strings.HasPrefix(kc.S, `"`) {
+		if (kc.S == `""`) == empty {
+			return kTrue
+		}
+		return kFalse
+	}
+	return &BoolV{F: `StrEq("", ` + st.canon(sv) + ")", Neg: !empty}
+}
+
 func (x *Explorer) binop(fr *Frame, st *State, ins *ssa.BinOp) Val {
+	switch ins.Op {
+	case token.EQL, token.NEQ, token.LSS, token.GTR, token.LEQ, token.GEQ:
+		if v := x.emptinessTest(fr, st, ins); v != nil {
+			return v
+		}
+	}
 	a, b := x.eval(fr, st, ins.X), x.eval(fr, st, ins.Y)
 	op := ins.Op
 	switch op {
